@@ -1,5 +1,6 @@
 import Mdsort.Proofs.WorldOwn
 import Mdsort.Proofs.Captures
+import Mdsort.Proofs.EvalPFail
 
 /-!
 # C13 - commands get exactly the configured arguments and a clean process environment
@@ -91,6 +92,36 @@ example :
       { ty := .exec, lno := 1, part := 0, strings := [[101, 99, 104, 111], [92, 49]] }
       (fun _ => parseMessage [])).map (·.1.argv) =
     some [[101, 99, 104, 111], [97, 32, 98]] := by
+  decide +kernel
+
+
+/-! ## The `command` condition inside a run (`expr_eval_command`)
+
+Conditions are evaluated inside the run (`Model.evalT` / `Model.evalP`, Model/EvalP.lean): a `command` condition asks
+the operating system one question, `Req.command av`, which `Model.sysCall` turns into the calls of util.c
+`exec(argv, -1)` (`open("/dev/null")`, `fork`, `waitpid`, `close`: `C03_evaluation_calls`). -/
+
+/-- **The `command` condition**: when its entry can be appended and its strings interpolate to `av` - one argument per
+configured string, in order (`List.mapM`), interpolated against the entries of the rule so far, no shell, no splitting -
+the evaluation asks exactly the question `command av` and is *match* if `exec()` returned 0, *error* if it returned a
+negative value (`C04_command_failure_causes`: `/dev/null`, `fork`, `waitpid` failed, or exit status 127) and *no match*
+otherwise (any other exit status, death by a signal); the entry is removed again. -/
+theorem C13_command_condition (env : Env) (tf : Int → Option Bytes) (root : Msg) (lno : Nat) (argv : List Bytes)
+    (part : Nat) (m : Msg) (st : St) (ml : MatchList) (av : List Bytes)
+    (happ : matchesAppend env st.ml { ty := .command, lno := lno, part := part, strings := argv } = (ml, false))
+    (hav : argv.mapM (interpolate ml.dropLast none) = some av) :
+    evalT env tf root (.command lno argv) part m st =
+      (ask (.command av)).bind fun a =>
+        .ret (if ansStatus a == 0 then .match else if ansStatus a < 0 then .error else .nomatch,
+              { st with ml := ml.dropLast }) := by
+  simp only [evalT, happ, hav, Bool.false_eq_true, ↓reduceIte]
+
+/-- Non-vacuity: `command { "t" "a b" }` in an empty rule context: two arguments, the second with its blank. -/
+example :
+    matchesAppend Proofs.exampleEnv [] { ty := .command, lno := 1, part := 0, strings := [[116], [97, 32, 98]] } =
+      ([{ ty := .command, lno := 1, part := 0, strings := [[116], [97, 32, 98]] }], false) ∧
+    [[116], [97, 32, 98]].mapM (interpolate ([{ ty := .command, lno := 1, part := 0, strings := [[116], [97, 32, 98]] }] : MatchList).dropLast none) =
+      some [[116], [97, 32, 98]] := by
   decide +kernel
 
 end Mdsort.Props
